@@ -1,3 +1,4 @@
+import Pdpy11.Props.C16
 import Pdpy11.Model.Directive
 import Pdpy11.Props.C06
 /-
@@ -236,5 +237,43 @@ theorem label_is_next_address (base : Int) (sizes : List Nat) (k : Nat) (hk : k 
 /-! ### non-vacuity -/
 example : (wordDir 512 [1, 2]).run = ⟨.ok [1, 0, 2, 0], {}⟩ ∧ ({} : Log).errs = [] := ⟨rfl, rfl⟩
 example : addrs 512 [2, 4, 0, 1] = [512, 514, 518, 518] := by decide
+
+/-! ## second part: the block-layout model -/
+open Pdpy11.Model.Layout Pdpy11.Props.C16
+
+/-- In any block, the statement after `pre` is compiled at `start + (bytes emitted by pre)`, its
+bytes follow those of `pre` immediately, and the rest of the block starts right after them: the
+address a statement sees (its `.`) is where its bytes lie. -/
+theorem statement_sees_its_address (pre post : List Stmt) (s : Stmt) (a : Nat) (hpre : NoStop pre)
+    (hs : (s (a + (emitBlock pre a).length)).2 = false) :
+    emitBlock (pre ++ s :: post) a =
+      emitBlock pre a ++ (s (a + (emitBlock pre a).length)).1 ++
+        emitBlock post (a + (emitBlock pre a).length + (s (a + (emitBlock pre a).length)).1.length) := by
+  rw [emitBlock_append _ _ hpre, emitBlock_cons_noStop _ _ _ hs]
+  simp [List.append_assoc]
+
+/-- the sizes of the statements of a block, each at its own address -/
+def sizesFrom : List Stmt → Nat → List Nat
+  | [], _ => []
+  | s :: rest, a => (s a).1.length :: sizesFrom rest (a + (s a).1.length)
+
+/-- the image of a block that does not stop early is as long as the sizes of its statements, each
+measured at the address it was given -/
+theorem block_length (stmts : List Stmt) (a : Nat) (h : NoStop stmts) :
+    (emitBlock stmts a).length = (sizesFrom stmts a).sum := by
+  induction stmts generalizing a with
+  | nil => simp [emitBlock, sizesFrom]
+  | cons s rest ih =>
+    have hs : (s a).2 = false := h s (by simp) a
+    rw [emitBlock_cons_noStop _ _ _ hs, sizesFrom]
+    simp [ih (a + (s a).1.length) (fun t ht => h t (by simp [ht]))]
+
+/-- a label placed after `pre` (a statement that emits nothing) marks the address of the next byte:
+`start + length of what `pre` emitted`, whatever follows -/
+theorem label_marks_next_byte (pre post : List Stmt) (a : Nat) (hpre : NoStop pre) :
+    emitBlock (pre ++ (fun _ => ([], false)) :: post) a = emitBlock pre a ++ emitBlock post (a + (emitBlock pre a).length) := by
+  rw [statement_sees_its_address pre post (fun _ => ([], false)) a hpre rfl]
+  simp
+
 
 end Pdpy11.Props.C02
